@@ -165,7 +165,7 @@ Definition spec_step (P : list PoseR) (o : opR) : option (list PoseR) :=
 Definition op_ok (o : opR) : Prop :=
   match o with
   | Transform t rgt propagate sim =>
-      if sim then exists r k, SO3 r /\ 0 < k /\ prot t = mscale k r /\ propagate = false
+      if sim then exists r k, SO3 r /\ 0 < k /\ prot t = mscale k r
       else SE3 t
   | _ => True
   end.
@@ -248,15 +248,45 @@ Proof.
   intros Hr Hk Hp. unfold pmul, sim3. cbn [prot ptr]. rewrite mm_mscale_r.
   apply renorm_scaled; [now apply SO3_mm|lra].
 Qed.
-Lemma SE3_sim_transform t rgt (P : list PoseR) r k : SO3 r -> 0 < k -> prot t = mscale k r -> Forall SE3 P ->
-  Forall SE3 (map renormR (transform_poses t rgt false P)).
+(* rotation blocks that are a positive multiple of a rotation: closed under products, renormalised to a rotation *)
+Definition ScaledRot (m : M3R) : Prop := exists k r, 0 < k /\ SO3 r /\ m = mscale k r.
+Lemma ScaledRot_SO3 m : SO3 m -> ScaledRot m.
+Proof. intros H. exists 1, m. split; [lra|]. split; [exact H|]. now rewrite mscale_1. Qed.
+Lemma ScaledRot_mm a b : ScaledRot a -> ScaledRot b -> ScaledRot (mm a b).
 Proof.
-  intros Hr Hk Et F. destruct t as [tr0 tau]. cbn [prot] in Et. subst tr0.
-  change (mkPose (mscale k r) tau) with (sim3 r tau k).
-  unfold transform_poses. rewrite Forall_forall in *. intros q Hq. apply in_map_iff in Hq. destruct Hq as (w & <- & Hw).
-  destruct rgt; apply in_map_iff in Hw; destruct Hw as (p & <- & Hp).
-  - rewrite sim_right_effect by auto. unfold SE3. cbn [prot]. apply SO3_mm; [apply F; exact Hp|exact Hr].
-  - rewrite sim_left_effect by auto. unfold SE3. cbn [prot]. apply SO3_mm; [exact Hr|apply F; exact Hp].
+  intros (k & r & Hk & Hr & ->) (l & q & Hl & Hq & ->). exists (k * l), (mm r q).
+  split; [now apply Rmult_lt_0_compat|]. split; [now apply SO3_mm|].
+  rewrite mm_mscale_l, mm_mscale_r, mscale_mscale. reflexivity.
+Qed.
+Lemma renorm_ScaledRot (p : PoseR) : ScaledRot (prot p) -> SE3 (renormR p).
+Proof.
+  intros (k & r & Hk & Hr & E). destruct p as [m v]. cbn [prot] in E. subst m.
+  rewrite renorm_scaled by (try assumption; lra). exact Hr.
+Qed.
+Lemma ScaledRot_propagate t : ScaledRot (prot t) -> forall ps prev prev_new, SE3 prev -> ScaledRot (prot prev_new) ->
+  Forall SE3 ps -> Forall (fun p => ScaledRot (prot p)) (propagate_from prev ps prev_new t).
+Proof.
+  intros Ht. induction ps as [|p r IH]; intros prev prev_new H1 H2 F; cbn [propagate_from]; [constructor|].
+  inversion F; subst.
+  assert (Hn : ScaledRot (prot (pmul prev_new (pmul (relative_se3 prev p) t)))).
+  { cbn [pmul prot]. apply ScaledRot_mm; [exact H2|]. apply ScaledRot_mm; [|exact Ht].
+    apply ScaledRot_SO3. apply SO3_mm; [now apply SO3_mt|assumption]. }
+  constructor; [exact Hn|]. apply IH; assumption.
+Qed.
+Lemma SE3_sim_transform t rgt propagate (P : list PoseR) r k : SO3 r -> 0 < k -> prot t = mscale k r -> Forall SE3 P ->
+  Forall SE3 (map renormR (transform_poses t rgt propagate P)).
+Proof.
+  intros Hr Hk Et F.
+  assert (Ht : ScaledRot (prot t)) by (exists k, r; auto).
+  assert (G : Forall (fun p => ScaledRot (prot p)) (transform_poses t rgt propagate P)).
+  { unfold transform_poses. destruct rgt; [destruct propagate|].
+    - destruct P as [|p0 P0]; [constructor|]. inversion F; subst. constructor; [now apply ScaledRot_SO3|].
+      apply ScaledRot_propagate; try assumption. now apply ScaledRot_SO3.
+    - rewrite Forall_forall in *. intros q Hq. apply in_map_iff in Hq. destruct Hq as (p & <- & Hp). cbn [pmul prot].
+      apply ScaledRot_mm; [apply ScaledRot_SO3; apply F; exact Hp|exact Ht].
+    - rewrite Forall_forall in *. intros q Hq. apply in_map_iff in Hq. destruct Hq as (p & <- & Hp). cbn [pmul prot].
+      apply ScaledRot_mm; [exact Ht|apply ScaledRot_SO3; apply F; exact Hp]. }
+  rewrite Forall_forall in *. intros q Hq. apply in_map_iff in Hq. destruct Hq as (p & <- & Hp). apply renorm_ScaledRot. now apply G.
 Qed.
 
 (* --- the invariant in terms of "good caches for a pose list" --- *)
@@ -348,7 +378,7 @@ Proof.
     set (P'' := if sim then map renormR P' else P').
     assert (F' : Forall SE3 P'').
     { unfold P'', P'. destruct sim.
-      - destruct Hok as (r & k & Hr & Hk & Et & ->). now apply (SE3_sim_transform t rgt (absT s) r k).
+      - destruct Hok as (r & k & Hr & Hk & Et). now apply (SE3_sim_transform t rgt propagate (absT s) r k).
       - now apply SE3_transform. }
     assert (L' : length P'' = length (absT s)).
     { unfold P'', P'. destruct sim; rewrite ?map_length; apply transform_length. }
